@@ -32,25 +32,12 @@ def expr_fields(repo, c):
     return out
 
 
-def run(chk, repo, tier):
+
+def run_d1(chk, repo, D1):
+    """D1, per class part (also run by the checks of C05 and C07: subs() that skips a field breaks the graph/equation
+    agreement and every refactoring that renames or substitutes a symbol)"""
     m = repo.module(MOD)
     rel = m.rel
-    chk.explanation = (
-        'D1: for Assignment, Bolus, Infusion, Compartment and CompartmentalSystem, free_symbols / rhs_symbols / subs '
-        'consult every expression-valued constructor field, and do so through .free_symbols / .subs (a raw field put '
-        'into the result set is only a symbol for symbol-valued fields). D2: the scans that implement "latest earlier '
-        'definition" semantics (dependencies, remove_symbol_definitions, _create_dependency_graph, reassign, '
-        'full_expression) run backwards from the end and include index 0. D3: the dependency graph links a '
-        'statement to assignments by lhs symbol and to the ODE system by its amounts. NOT decided: the graph '
-        'algorithms on run-time statement lists (dependencies, remove_symbol_definitions, full_expression values).')
-    D1 = chk.rule('D1', 'symbol accessors cover every expression field through the matching accessor', floor=10)
-    D2 = chk.rule('D2', 'backward scans over statements start at the end and reach index 0', floor=4)
-    D4 = chk.rule('D4', 'index-based deletion inside a loop runs from the end (indices stay valid); accumulators declared '
-                        'before a loop are extended, not rebound, inside it', floor=3)
-    D5 = chk.rule('D5', 'every traversal of the dependency graph from a statement index is guarded by `index in graph` '
-                        '(the graph only contains statements that have an edge)', floor=3)
-    D3 = chk.rule('D3', 'dependency edges: assignment by lhs symbol in rhs_symbols, ODE system by amounts', floor=2)
-
     for cname in ('Assignment', 'Bolus', 'Infusion', 'Compartment', 'CompartmentalSystem'):
         c = m.classes.get(cname)
         if c is None:
@@ -105,6 +92,28 @@ def run(chk, repo, tier):
                                           f'.{meth_attr}', line=n.lineno,
                                           witness=f"{cname} with {fld.lstrip('_')} = 2*AMT: free_symbols contains the "
                                                   f"expression 2*AMT, not the symbol AMT, so AMT is reported unused")
+
+
+def run(chk, repo, tier):
+    m = repo.module(MOD)
+    rel = m.rel
+    chk.explanation = (
+        'D1: for Assignment, Bolus, Infusion, Compartment and CompartmentalSystem, free_symbols / rhs_symbols / subs '
+        'consult every expression-valued constructor field, and do so through .free_symbols / .subs (a raw field put '
+        'into the result set is only a symbol for symbol-valued fields). D2: the scans that implement "latest earlier '
+        'definition" semantics (dependencies, remove_symbol_definitions, _create_dependency_graph, reassign, '
+        'full_expression) run backwards from the end and include index 0. D3: the dependency graph links a '
+        'statement to assignments by lhs symbol and to the ODE system by its amounts. NOT decided: the graph '
+        'algorithms on run-time statement lists (dependencies, remove_symbol_definitions, full_expression values).')
+    D1 = chk.rule('D1', 'symbol accessors cover every expression field through the matching accessor', floor=10)
+    D2 = chk.rule('D2', 'backward scans over statements start at the end and reach index 0', floor=4)
+    D4 = chk.rule('D4', 'index-based deletion inside a loop runs from the end (indices stay valid); accumulators declared '
+                        'before a loop are extended, not rebound, inside it', floor=3)
+    D5 = chk.rule('D5', 'every traversal of the dependency graph from a statement index is guarded by `index in graph` '
+                        '(the graph only contains statements that have an edge)', floor=3)
+    D3 = chk.rule('D3', 'dependency edges: assignment by lhs symbol in rhs_symbols, ODE system by amounts', floor=2)
+
+    run_d1(chk, repo, D1)
     # rhs_symbols of Assignment covers the expression
     a = m.classes['Assignment']
     rs = a.methods.get('rhs_symbols')
